@@ -127,13 +127,30 @@ fn overlay_threshold_history(s: &mut Scenario, r: &mut Rng) {
     pv.extend(keys.iter().rev().take(3).cloned());
     pv.push(flip(&keys[0], 255)); pv.push(flip(&keys[1], plen + 7)); pv.push(flip(&keys[2], plen + 1));
     let mut steps = Vec::new();
-    let mut f: Vec<(Key, bool)> = first.iter().map(|k| (*k, false)).collect(); f.extend(others.iter().map(|k| (*k, false)));
+    // half of the time the other way round: the page is first *created* inside overlay A (a fresh
+    // page whose bucket is only a placeholder shared with its descendants) and emptied by B
+    let create_in_overlay = r.chance(1, 2);
+    let mut f: Vec<(Key, bool)> = if create_in_overlay { first.iter().take(*r.pick(&[0usize, 0, 3, 12])).map(|k| (*k, false)).collect() } else { first.iter().map(|k| (*k, false)).collect() };
+    f.extend(others.iter().map(|k| (*k, false)));
     steps.push(Step::Commit { batch: mk(&f, &[], r), nonblocking: false });
     if r.chance(1, 3) { steps.push(Step::Reopen { opts: regen_opts(r, &s.opts, true) }); }
-    // A: empty (or nearly empty) the page
+    // A: empty (or nearly empty) the page / create it
     let keep = *r.pick(&[0usize, 0, 0, 1, 2, 5, 19]);
-    let a: Vec<(Key, bool)> = first.iter().skip(keep).map(|k| (*k, true)).collect();
+    let a: Vec<(Key, bool)> = if create_in_overlay { first.iter().map(|k| (*k, false)).collect() } else { first.iter().skip(keep).map(|k| (*k, true)).collect() };
     steps.push(Step::OvBuild { id: 0, parent: None, batch: mk(&a, &pv, r) });
+    if create_in_overlay {
+        // B: delete what A created (all of it, or down to below the threshold); C: some of it again
+        let b: Vec<(Key, bool)> = first.iter().skip(keep).map(|k| (*k, true)).collect();
+        steps.push(Step::OvBuild { id: 1, parent: Some(0), batch: mk(&b, &pv, r) });
+        let mut depth = 2;
+        if r.chance(1, 2) { let c: Vec<(Key, bool)> = keys.iter().rev().take(r.range(1, 24) as usize).map(|k| (*k, false)).collect(); steps.push(Step::OvBuild { id: 2, parent: Some(1), batch: mk(&c, &pv, r) }); depth = 3; }
+        for id in 0..depth { steps.push(Step::OvCommit { id, nonblocking: r.chance(1, 3) }); }
+        if r.chance(1, 2) { steps.push(Step::Reopen { opts: regen_opts(r, &s.opts, true) }); }
+        if r.chance(1, 2) { steps.push(Step::Commit { batch: mk(&keys.iter().take(6).map(|k| (*k, false)).collect::<Vec<_>>(), &pv, r), nonblocking: false }); }
+        s.steps = steps;
+        s.probes = pv.iter().map(|k| K(*k)).collect();
+        return;
+    }
     // B: re-populate below / at / above the threshold (keys old and new)
     let m = *r.pick(&[2usize, 3, 4, 8, 15, 19, 20, 22]);
     let mut pick_from = keys.clone(); r.shuffle(&mut pick_from);
@@ -283,7 +300,7 @@ pub fn make(prop: &str, tier: Tier, seed: u64) -> Scenario {
         s.extra["buggify_io"] = json!(*br.pick(&[3u64, 10, 40]));
     }
     let mut or = Rng::new(seed ^ 0x0E11_D0E5);
-    if matches!(prop, "C02" | "C05" | "C11" | "C16") && s.extra.get("plan").is_none() && s.extra.get("kind").is_none() && or.chance(1, 12) {
+    if matches!(prop, "C02" | "C05" | "C10" | "C11" | "C16" | "C19") && s.extra.get("plan").is_none() && s.extra.get("kind").is_none() && s.extra.get("c19_cycles").is_none() && or.chance(1, 12) {
         overlay_threshold_history(&mut s, &mut or);
         if prop == "C11" { s.opts.rollback = true; s.opts.max_rollback_log_len = s.opts.max_rollback_log_len.max(5); let n = or.range(1, 3) as usize; for _ in 0..n { s.steps.push(Step::Rollback { n: 1 }); } }
     }
